@@ -6,10 +6,10 @@
 EXTENDS JEval
 
 \* open choices (behaviours the property texts leave open) - every combination is allowed
-OpenFlags == <<"o1_undef_wins", "group_collapse", "name_unit", "floor_params", "hof_collapse">>
+OpenFlags == <<"o1_undef_wins", "group_collapse", "name_unit", "floor_params", "hof_collapse", "group_undef_null">>
 \* the default is what the pinned port does, so that the first evaluation normally matches
 DefaultMd == [o1_undef_wins |-> FALSE, group_collapse |-> FALSE, name_unit |-> TRUE,
-              floor_params |-> FALSE, hof_collapse |-> FALSE, dev |-> "none"]
+              floor_params |-> FALSE, hof_collapse |-> FALSE, group_undef_null |-> TRUE, dev |-> "none"]
 \* named deviations of the pinned tree from the specification: used only to classify a
 \* mismatch as a listed known finding, never to accept it
 KnownDevs == <<>>
